@@ -12,21 +12,26 @@ Inductive sx : Type :=
 | SZ (z : Z)
 | SL (l : list sx).
 
-(* result of running implementation code: normal return or panic *)
+(* result of running implementation code: normal return, panic, or a request
+   for a value of an external function the model cannot compute (libm: sin,
+   cos, tan, exp, powf) — the check answers it from the implementation's own
+   libm and re-runs the case; see Base/F32.v *)
 Inductive res (A : Type) : Type :=
 | Ok (a : A)
-| Panic.
+| Panic
+| Need (fn arg : Z).
 Arguments Ok {A} a.
 Arguments Panic {A}.
+Arguments Need {A} fn arg.
 
 Definition rbind {A B} (r : res A) (f : A -> res B) : res B :=
-  match r with Ok a => f a | Panic => Panic end.
+  match r with Ok a => f a | Panic => Panic | Need fn x => Need fn x end.
 Definition rmap {A B} (f : A -> B) (r : res A) : res B :=
-  match r with Ok a => Ok (f a) | Panic => Panic end.
+  match r with Ok a => Ok (f a) | Panic => Panic | Need fn x => Need fn x end.
 Notation "'let!' x ':=' r 'in' k" := (rbind r (fun x => k))
   (at level 200, x pattern, r at level 100, k at level 200).
 
-Definition is_ok {A} (r : res A) : bool := match r with Ok _ => true | Panic => false end.
+Definition is_ok {A} (r : res A) : bool := match r with Ok _ => true | _ => false end.
 
 (* wire encodings *)
 Definition sx_bool (b : bool) : sx := SZ (if b then 1 else 0).
@@ -34,7 +39,7 @@ Definition sx_list {A} (f : A -> sx) (l : list A) : sx := SL (map f l).
 Definition sx_opt {A} (f : A -> sx) (o : option A) : sx :=
   match o with None => SL [] | Some a => SL [f a] end.
 Definition sx_res {A} (f : A -> sx) (r : res A) : sx :=
-  match r with Ok a => SL [SZ 0; f a] | Panic => SL [SZ 1] end.
+  match r with Ok a => SL [SZ 0; f a] | Panic => SL [SZ 1] | Need fn x => SL [SZ 2; SZ fn; SZ x] end.
 Definition sx_unit : sx := SL [].
 Definition sx_pair {A B} (f : A -> sx) (g : B -> sx) (p : A * B) : sx :=
   SL [f (fst p); g (snd p)].
